@@ -63,7 +63,9 @@ def write_case(draw, tier):
     chart = draw(gen.chart_strategy(tier, purpose="write", max_tempo=40))
     via = draw(st.sampled_from(["bytes", "bytes", "file"]))
     shift = draw(st.sampled_from(SHIFTS))
-    return dict(chart=chart, via=via, shift=shift)
+    # row order of the in-memory lists: a chart is a set of rows (the library itself makes unsorted lists: append)
+    order = {name: draw(st.sampled_from([None, None, None, "reverse", "rotate", "evens-first"])) for name in ("bpms", "hits", "holds")}
+    return dict(chart=chart, via=via, shift=shift, order=order)
 
 
 def _dense_skeleton(n_points: int, layout: str, variant: int, bpm_class: str) -> dict:
@@ -223,6 +225,23 @@ def _labels(ctx, skel, case, exp_lanes):
     ctx.label("lane-measure-lcm>=100", big)
 
 
+def _reorder(ctx, m, order):
+    """Permute the rows of the chart's lists (same rows, other order) through the public list constructor."""
+    for name, how in order.items():
+        lst = getattr(m, name)
+        n = len(lst)
+        if not how or n < 2:
+            continue
+        if how == "reverse":
+            perm = list(range(n - 1, -1, -1))
+        elif how == "rotate":
+            perm = list(range(n // 2, n)) + list(range(n // 2))
+        else:
+            perm = list(range(0, n, 2)) + list(range(1, n, 2))
+        setattr(m, name, type(lst)(lst.df.iloc[perm].reset_index(drop=True)))
+        ctx.label(f"rows-reordered:{name}")
+
+
 # --------------------------------------------------------------------------- #
 # the check
 # --------------------------------------------------------------------------- #
@@ -231,6 +250,7 @@ def _run_writer(ctx, skel, case):
 
     m = gen.build(skel)
     _shift_map(m, case["shift"])
+    _reorder(ctx, m, case.get("order") or {})
     cfg = gen.channel_config(skel["layout"])
     if case["via"] == "bytes":
         data = ctx.call("write", m.write, note_channel_config=cfg)
@@ -289,7 +309,14 @@ def _check_written(ctx, skel, case, data):
     if parsed["bpm0"] is None:
         ctx.fail("header-bpm", "no (numeric) #BPM header")
     elif abs(parsed["bpm0"] - bpm_first) > BPM_TEXT_TOL:
-        ctx.fail("header-bpm", f"#BPM {parsed['bpm0']!r}, first in-memory tempo {bpm_first!r}")
+        # A tempo object at position 0 of the file replaces the header value from beat 0 on, so the timeline (asserted
+        # below) is unaffected; the writer takes #BPM from row 0 of the list, which is the first tempo point only when
+        # the rows are in time order.  Without such an object the header IS the initial tempo and must be right.
+        eff0 = parsed["tempo"][0][1] if parsed["tempo"] else None  # effective tempo at beat 0 (a change at 0 wins over #BPM)
+        if eff0 is not None and abs(eff0 - bpm_first) <= BPM_TEXT_TOL and (case.get("order") or {}).get("bpms"):
+            ctx.label("header-bpm-differs-but-overridden-at-beat-0")
+        else:
+            ctx.fail("header-bpm", f"#BPM {parsed['bpm0']!r}, first in-memory tempo {bpm_first!r}")
     for k, v in skel["headers"]:
         if parsed["header"].get(k) != v:
             ctx.fail("header-misc", f"#{k}: got={parsed['header'].get(k)!r} expected={v!r}")
